@@ -164,6 +164,7 @@ func applyDrift(w *world.World, sc scenario, d string) bool {
 // execute runs the scenario under the fair schedule with the given injection.
 func execute(sc scenario, in *injection, keepTrace bool) runResult {
 	w := sc.Init()
+	w.LongLived() // one operator process across the passes; a crash restarts it (empty memory)
 	res := runResult{}
 	pending := in
 	for r := 0; r < horizon; r++ {
